@@ -122,7 +122,7 @@ def meta(tier):
     return {
         'functions': loader.functions_encoded(fns), 'sig': sig,
         'bounds': 'base points x of order 2..3 (thorough 4): (a) rank 1 with arbitrary sign-free symbolic entries, (b) ranks 2..3 with sparse cores (scaled partial permutation per slice) and symbolic positive magnitudes; TT tensors and TT matrices; z, w arbitrary symbolic TT objects of rank 1 (2 for order 2 over rank-1 base points); '
-                  'alpha, beta symbolic; QR by exact symbolic Gram-Schmidt',
+                  'alpha, beta symbolic; z also in the block form of tangent vectors for frames unrelated to the base point; QR by exact symbolic Gram-Schmidt',
         'outside': 'rank-deficient base points (the Gram-Schmidt pivots are assumed non-zero: minimal-rank precondition of the property); dense base points of rank >= 2 (expression blow-up in exact symbolic QR); IEEE rounding; riemannian_gradient: f from {quadratic misfit, linear functional, quartic}, derivative of torch primitives trusted (autograd model of C15)',
         'assumptions': ['torch.linalg.qr replaced by exact symbolic Gram-Schmidt (positive diagonal)', 'symtorch validated per run against real torch', 'z3 sat/unsat verdicts; unknown counted inconclusive'],
         'tv_max': 40,
